@@ -74,6 +74,24 @@ fn run_case(_kind: &str, idx: u64, rng: &mut Rng, mon: &mut Mon, _tier: Tier) {
             mon.count(if lf[j] > lt[j] { "cells_with_a_wrap_around_range" } else { "cells_with_a_forbidden_arc" });
         }
     }
+    // a sixth of the cells: for one or two joints BOTH replacement values lie on the same side of the current value
+    // (a search that sweeps a joint in one direction with two step lengths)
+    if rng.usize(6) == 0 {
+        for _ in 0..(1 + rng.usize(2)) {
+            let j = rng.usize(6);
+            let sgn = rng.sign();
+            let (near, far) = (rng.range(0.05, 0.6), rng.range(0.7, 2.0));
+            let (a, b) = (initial[j] + sgn * near, initial[j] + sgn * far);
+            if rng.bool(0.5) {
+                from[j] = a;
+                to[j] = b;
+            } else {
+                from[j] = b;
+                to[j] = a;
+            }
+        }
+        mon.count("cells_with_both_targets_on_one_side");
+    }
     // a fifth of the cells declares one or two joints with from == to, i.e. unconstrained (a continuous J6, a joint
     // without <limit>): their replacements are legal whatever the values
     if !illegal_initial && rng.bool(0.2) {
